@@ -42,6 +42,14 @@ def run(ctx):
         c["pts"] = pts
         cases.append(c)
     _tempo.judge(ctx, cases, "C01", "seeded maps with tempo changes days into the chart", queries=_queries)
+    # runs of markers that restate one tempo
+    cases = []
+    for k in range(ctx.pick(40, 800)):
+        res, tempo, pts = tm.restated_run_map(r)
+        c = tm.chart_case_from_map(r, f"C01-run{k}", res, tempo, pts, dense=True)
+        c["pts"] = pts
+        cases.append(c)
+    _tempo.judge(ctx, cases, "C01", "seeded maps with runs of restated tempos", queries=_queries)
     # long tempo maps (a code path may depend on the NUMBER of tempo events)
     cases = []
     for k in range(ctx.pick(12, 300)):
